@@ -7,6 +7,7 @@ import (
 	"encoding/base64"
 	"encoding/json"
 	"fmt"
+	"github.com/golang-jwt/jwt/v4"
 	"io"
 	"net/http"
 	"net/http/httptest"
@@ -31,6 +32,7 @@ type verifJwtReq struct {
 	Tok     int    `json:"tok"`
 	Scheme  string `json:"scheme"`
 	Advance int64  `json:"advance"`
+	JAdv    int64  `json:"jadv"` // seconds the jwt library's clock (jwt.TimeFunc) moves before the request
 }
 
 type verifJwtCase struct {
@@ -51,6 +53,9 @@ func verifJwt(raw json.RawMessage) any {
 	timex.VerifSetNow(time.Hour)
 	defer timex.VerifClockOff()
 	wall := time.Now()
+	var jshift int64
+	jwt.TimeFunc = func() time.Time { return wall.Add(time.Duration(jshift) * time.Second) }
+	defer func() { jwt.TimeFunc = time.Now }()
 	texts := make([]string, len(c.Tokens))
 	for i, ts := range c.Tokens {
 		texts[i] = verifc04.Mint(ts, wall)
@@ -85,6 +90,7 @@ func verifJwt(raw json.RawMessage) any {
 	}))
 	type row struct {
 		Header int               `json:"header"`
+		Jt     int               `json:"jt"`
 		Status int               `json:"status"`
 		Ran    bool              `json:"ran"`
 		Ctx    map[string]string `json:"ctx"`
@@ -94,8 +100,13 @@ func verifJwt(raw json.RawMessage) any {
 	headers := []string{}
 	hidx := map[string]int{}
 	rows := []row{}
+	shifts := []int64{}
 	for _, rq := range c.Reqs {
 		timex.VerifAdvance(time.Duration(rq.Advance) * time.Second)
+		jshift += rq.JAdv
+		if len(shifts) == 0 || shifts[len(shifts)-1] != jshift {
+			shifts = append(shifts, jshift)
+		}
 		h := ""
 		if rq.Tok >= 0 {
 			h = rq.Scheme + texts[rq.Tok]
@@ -108,16 +119,20 @@ func verifJwt(raw json.RawMessage) any {
 		ctxSeen = map[string]string{}
 		rec := httptest.NewRecorder()
 		mw.ServeHTTP(rec, verifc04.Request(h))
-		rows = append(rows, row{Header: hidx[h], Status: rec.Code, Ran: ran, Ctx: ctxSeen, Cb: cbCalled, CbErr: cbHasErr})
+		rows = append(rows, row{Header: hidx[h], Jt: len(shifts) - 1, Status: rec.Code, Ran: ran, Ctx: ctxSeen, Cb: cbCalled, CbErr: cbHasErr})
 	}
-	oracle := make([]map[string]verifc04.Verdict, len(headers))
-	for i, h := range headers {
-		oracle[i] = map[string]verifc04.Verdict{}
-		for _, s := range c.Secrets {
-			oracle[i][s] = verifc04.Oracle(h, s)
+	oracle := make([][]map[string]verifc04.Verdict, len(shifts))
+	for ti, sh := range shifts {
+		jshift = sh
+		oracle[ti] = make([]map[string]verifc04.Verdict, len(headers))
+		for i, h := range headers {
+			oracle[ti][i] = map[string]verifc04.Verdict{}
+			for _, s := range c.Secrets {
+				oracle[ti][i][s] = verifc04.Oracle(h, s)
+			}
 		}
 	}
-	return map[string]any{"rows": rows, "oracle": oracle, "nheaders": len(headers)}
+	return map[string]any{"rows": rows, "oracle": oracle, "nheaders": len(headers), "shifts": shifts}
 }
 
 // ---------------------------------------------------------------- signature gate
